@@ -132,6 +132,12 @@ QVariant parseValue(Tok &k)
         memcpy(&d, &bits, 8);
         return QVariant(d);
     }
+    if (c == "F") {
+        quint32 bits = quint32(strtoul(k.next().c_str(), nullptr, 16));
+        float f;
+        memcpy(&f, &bits, 4);
+        return QVariant(f);   // QMetaType::Float
+    }
     if (c == "N") return QVariant();
     if (c == "Q") return QVariant(QString());   // a null string, e.g. QCoreApplication::applicationVersion() when none was set
     if (c == "L") {
